@@ -50,6 +50,39 @@ def random_vrptw(rng):
     return g, desc
 
 
+def targeted_vrptw(rng):
+    """Deterministic families aimed at the clauses a random draw only meets by luck:
+    T1 route costs of both signs that cancel (a penalty computed from the summed costs is too small);
+    T2 a depot that closes, a customer reached late over a long first leg and a short way home that passes the lenient arc rule
+       but not the strict one (strict feasibility must imply feasibility);
+    T3 a customer that can be entered but not left, next to a proper alternative (arc model must not let a vehicle vanish)."""
+    from vrpqubo.routing_problem.vrptw import VRPTW
+    out = []
+    for K in (3, 5):
+        for cc in (1, 2):
+            out.append({"nodes": [("D", 0, 0, INF), ("c1", 0, 0, 9), ("c2", 0, 0, 9)],
+                        "arcs": [("D", "c1", 1, -K), ("c1", "D", 1, 0), ("D", "c2", 1, K), ("c2", "D", 1, 0),
+                                 ("c1", "c2", 1, cc), ("c2", "c1", 1, cc)]})
+    for (H, lo, hi, t_out, t_back) in ((8, 2, 9, 7, 2), (6, 1, 7, 5, 2), (9, 0, 9, 8, 2), (8, 2, 9, 3, 2)):
+        out.append({"nodes": [("D", 0, 0, H), ("c1", 0, lo, hi)], "arcs": [("D", "c1", t_out, 2), ("c1", "D", t_back, 2)]})
+        out.append({"nodes": [("D", 0, 0, H), ("c1", 0, lo, hi), ("c2", 0, 0, 4)],
+                    "arcs": [("D", "c1", t_out, 2), ("c1", "D", t_back, 2), ("D", "c2", 1, 1), ("c2", "D", 1, 1), ("c2", "c1", t_out, 1)]})
+    for extra in (0, 1):
+        out.append({"nodes": [("D", 0, 0, INF), ("c1", 0, 0, 4), ("c2", 0, 0, 2 + extra)],
+                    "arcs": [("D", "c1", 1, 1), ("c1", "c2", 2, 1), ("D", "c2", 1, 4), ("c2", "D", 1, 4), ("c1", "D", 1, 9)][: 4 + extra]})
+    res = []
+    for d in out:
+        g = VRPTW()
+        g.set_vehicle_cap(5)
+        g.set_initial_loading(0)
+        for nm, dem, lo, hi in d["nodes"]:
+            g.add_node(nm, dem, (lo, hi))
+        g.set_depot("D")
+        kept = [(a, b, tt, c) for (a, b, tt, c) in d["arcs"] if g.add_arc(a, b, tt, c)]
+        res.append((g, {"nodes": d["nodes"], "arcs": kept}))
+    return res
+
+
 def rebuild(desc):
     from vrpqubo.routing_problem.vrptw import VRPTW
     g = VRPTW()
@@ -194,8 +227,10 @@ def run(ctx):
         r.update(extra or {})
         ctx.violation(sig, msg, r, True)
 
-    for _ in range(n_inst):
-        g, desc = random_vrptw(rng)
+    stream = targeted_vrptw(rng)
+    dist["targeted_instances"] = len(stream)
+    for k_inst in range(n_inst + len(stream)):
+        g, desc = stream[k_inst] if k_inst < len(stream) else random_vrptw(rng)
         inst = ref.Instance.of_graph(g)
         if ref.capacity_binding(inst):
             dist["skipped_capacity_binding"] += 1
